@@ -48,7 +48,7 @@ def grep_forbidden():
     return hits
 
 
-def audit(prop):
+def audit(prop, tier="quick"):
     """returns dict(ok, obligations, discharged, theorems, problems, checker_cmd)"""
     src = os.path.join(COQ, "Properties", prop + ".v")
     res = {"ok": False, "obligations": 0, "discharged": 0, "theorems": [], "problems": [],
@@ -121,6 +121,25 @@ def audit(prop):
     for n in pins.get(prop, {}):
         if n not in names:
             res["problems"].append("pinned theorem %s is missing from Properties/%s.v" % (n, prop))
+    if tier == "thorough":
+        # independent re-check of the compiled theory and everything it depends on; prints the axioms relied upon
+        chk = os.path.join(cache, "%s.%s.coqchk" % (prop, proofs_hash()[:16]))
+        if os.path.exists(chk):
+            cout = open(chk).read()
+        else:
+            rc2, cout, dt2 = run(["coqchk", "-o", "-silent", "-Q", ".", "Entrait", "Entrait.Properties.%s" % prop], cwd=COQ, timeout=3000)
+            if rc2 == 0:
+                with open(chk, "w") as fh:
+                    fh.write(cout)
+            else:
+                res["problems"].append("coqchk failed: " + cout[-500:])
+        for key in ("Axioms", "Constants/Inductives relying on type-in-type", "Constants/Inductives relying on unsafe (co)fixpoints",
+                    "Inductives whose positivity is assumed"):
+            m = re.search(re.escape("* " + key) + r":\s*(.*)", cout)
+            if not m or m.group(1).strip() != "<none>":
+                res["problems"].append("coqchk: %s: %s" % (key, m.group(1).strip() if m else "missing"))
+        res["checker_cmd"] += " && coqchk -o -silent -Q . Entrait Entrait.Properties.%s" % prop
+        res["coqchk"] = "Axioms: <none>" if not any(p.startswith("coqchk") for p in res["problems"]) else "see problems"
     res["ok"] = not res["problems"] and res["obligations"] > 0 and res["discharged"] == res["obligations"]
     return res
 
